@@ -58,7 +58,8 @@ def adapt_numpylike_elementwise(op):
     classical = adapter.classical_from_numpy.ops(np)
 
     op = tracer.signature.python.constant(op)
-    op = adapter.decomposednamedtensor_from_classical.elementwise(op, classical, expected_type=np.ndarray)
+    # (Numpy functions return a numpy scalar rather than a zero-dimensional array if all inputs are zero-dimensional)
+    op = adapter.decomposednamedtensor_from_classical.elementwise(op, classical, expected_type=(np.ndarray, np.generic))
     op = adapter.namedtensor_from_decomposednamedtensor.op(op, classical)
     op = adapter.namedtensor_calltensorfactory.op(op, expected_type=np.ndarray)
     op = adapter.einx_from_namedtensor.elementwise(op, iskwarg=iskwarg)
